@@ -1,5 +1,6 @@
 import Model.FrameSpec
 import Model.FrameWrite
+import Model.Handshake
 import Driver.Util
 namespace Driver.C03
 open Util FrameSpec FrameWrite
@@ -29,6 +30,23 @@ ops (one line, words separated by blanks; bytes as hex, "-" = empty):
   VALTOK  := n (nil → null) | u (unset) | v<hex>
   PAYLOAD := <n> (<key> OPTB)*             in the iteration order of the Go map
   OPTB    := n | v<hex>
+
+  hs CFG AUTH PLAN ANSWERS FRAMES             → handshake tier, SPECIFICATION: the requests due for (CFG, AUTH, PLAN) when the
+                                                 peer answers ANSWERS (Handshake.specReqs) are compared, one by one, with what
+                                                 the spec decoder reads out of FRAMES (the frames the peer received from the real
+                                                 connection): `ok n=<requests> status=<done|hsfail|actfail> success=<calls of Success>`,
+                                                 `inexpressible:<i>` if request i cannot be expressed in the version,
+                                                 `mismatch:<i>:<what>` otherwise
+  hsm CFG AUTH PLAN ANSWERS ORDER STREAMS     → handshake tier, MODEL of conn.go (Handshake.step): the frames it writes, hex joined
+                                                 by ",", then ` status=… success=…`
+
+  CFG     := <v> <cqlversion> <drivername> <driverversion> <compressor n|v<hex>> <hasAuth 0|1> <cons> <skipmeta 0|1>
+  AUTH    := <successOk 0|1> <n> (<kind> <hex> <next 0|1>)*   round k of the authenticator: kind f = the token <hex>,
+             n = nil token, e = <hex> ++ latest challenge, c = <hex> ++ all challenges so far, m = the latest challenge
+             itself (nil stays nil), x = error; next = a challenger is returned; rounds beyond the list: error
+  PLAN    := <n> (use <ks> | reg <topo> <status> <schema> | exec <stmt> <cons> <n> OPTB*)*
+  ANSWERS := <n> (sup <n> (<key> <n> <val>*)* | ready | authn <class> | chal OPTB | succ OPTB | err | setks | void | prep <id> <ncols>)*
+  FRAMES  := <n> <hex>*        ORDER := <n> <key>*  (iteration order of the STARTUP map)      STREAMS := <n> <int>*
 -/
 
 abbrev P (α : Type) := List String → Option (α × List String)
@@ -227,6 +245,158 @@ def fnv (bs : Bytes) : Nat :=
 def digest (bs : Bytes) : String :=
   s!"len={bs.length} head={toHex (bs.take 40)} fnv={fnv bs}"
 
+
+/-! ## handshake tier -/
+section Hs
+open Handshake
+
+structure Directive where
+  kind : String
+  data : Bytes
+  next : Bool
+
+def lastCh (hist : List (Option Bytes)) : Option Bytes := hist.getLast?.join
+
+/-- the scripted authenticator of the harness (harness/cmd/c03/handshake.go: scriptAuth) -/
+def scriptAuth (succOk : Bool) (ds : List Directive) : Authn where
+  challenge := fun hist =>
+    match hist with
+    | [] => .fail
+    | _ :: _ =>
+      match ds[hist.length - 1]? with
+      | none => .fail
+      | some d =>
+        if d.kind == "f" then .reply (some d.data) d.next
+        else if d.kind == "n" then .reply none d.next
+        else if d.kind == "e" then .reply (some (d.data ++ (lastCh hist).getD [])) d.next
+        else if d.kind == "c" then .reply (some (d.data ++ hist.flatMap (fun o => o.getD []))) d.next
+        else if d.kind == "m" then .reply (lastCh hist) d.next
+        else .fail
+  success := fun _ _ => succOk
+
+def pDirective : P Directive := fun ws => do
+  let (k, r) ← pWord ws
+  let (d, r) ← pHex r
+  let (n, r) ← pBool r
+  pure (⟨k, d, n⟩, r)
+
+def pAction : P Action
+  | "use" :: r => do
+    let (ks, r) ← pHex r
+    pure (Action.useKs ks, r)
+  | "reg" :: r => do
+    let (t, r) ← pBool r
+    let (s, r) ← pBool r
+    let (c, r) ← pBool r
+    pure (Action.register t s c, r)
+  | "exec" :: r => do
+    let (st, r) ← pHex r
+    let (cons, r) ← pNat r
+    let (vals, r) ← pCounted pOptB r
+    pure (Action.exec st cons vals, r)
+  | _ => none
+
+def pSupEntry : P (Bytes × List Bytes) := fun ws => do
+  let (k, r) ← pHex ws
+  let (vs, r) ← pCounted pHex r
+  pure ((k, vs), r)
+
+def pAnswer : P PeerAnswer
+  | "sup" :: r => do
+    let (m, r) ← pCounted pSupEntry r
+    pure (PeerAnswer.supported m, r)
+  | "ready" :: r => some (PeerAnswer.ready, r)
+  | "authn" :: r => do
+    let (c, r) ← pHex r
+    pure (PeerAnswer.authenticate c, r)
+  | "chal" :: r => do
+    let (t, r) ← pOptB r
+    pure (PeerAnswer.authChallenge t, r)
+  | "succ" :: r => do
+    let (t, r) ← pOptB r
+    pure (PeerAnswer.authSuccess t, r)
+  | "err" :: r => some (PeerAnswer.error, r)
+  | "setks" :: r => some (PeerAnswer.setKeyspace, r)
+  | "void" :: r => some (PeerAnswer.void, r)
+  | "prep" :: r => do
+    let (id, r) ← pHex r
+    let (n, r) ← pNat r
+    pure (PeerAnswer.prepared id n, r)
+  | _ => none
+
+structure HsLine where
+  cfg : Config
+  au : Authn
+  answers : List PeerAnswer
+
+def pHsLine : P HsLine := fun ws => do
+  let (v, r) ← pNat ws
+  let (cql, r) ← pHex r
+  let (dn, r) ← pHex r
+  let (dv, r) ← pHex r
+  let (comp, r) ← pOptB r
+  let (hasAuth, r) ← pBool r
+  let (cons, r) ← pNat r
+  let (skip, r) ← pBool r
+  let (succOk, r) ← pBool r
+  let (ds, r) ← pCounted pDirective r
+  let (plan, r) ← pCounted pAction r
+  let (answers, r) ← pCounted pAnswer r
+  pure (⟨⟨v, cql, dn, dv, comp, hasAuth, cons, skip, plan, id⟩, scriptAuth succOk ds, answers⟩, r)
+
+def orderBy (keys : List Bytes) (m : List (Bytes × Bytes)) : List (Bytes × Bytes) :=
+  keys.filterMap (fun k => m.find? (fun kv => kv.1 == k)) ++ m.filter (fun kv => !keys.contains kv.1)
+
+def optbStr : Option Bytes → String
+  | none => "n"
+  | some b => "v" ++ toHex b
+
+def successStr (l : List (Option Bytes)) : String :=
+  if l.isEmpty then "-" else ",".intercalate (l.map optbStr)
+
+def specStatus : SpecAt → String
+  | .options => "hsfail" | .startup _ => "hsfail" | .auth .. => "hsfail"
+  | .use .. => "actfail" | .reg .. => "actfail" | .prep .. => "actfail" | .exe .. => "actfail"
+  | .stop .hsFailed => "hsfail" | .stop .actFailed => "actfail" | .stop .finished => "done"
+
+def modelStatus : Phase → String
+  | .awaitSupported => "hsfail" | .awaitStartup => "hsfail" | .awaitAuth .. => "hsfail"
+  | .conn .. => "actfail"
+  | .stopped .hsFailed => "hsfail" | .stopped .actFailed => "actfail" | .stopped .finished => "done"
+
+/-- frame i against request i of the specification -/
+def checkFrames (v : Nat) : Nat → List (Req × Bool) → List Bytes → Option String
+  | _, [], _ => none
+  | i, _ :: _, [] => some s!"mismatch:{i}:missing"
+  | i, (want, z) :: ws, f :: fs =>
+    if !Expressible v want then some s!"inexpressible:{i}" else
+    match decodeZ z f with
+    | none => some s!"mismatch:{i}:undecodable"
+    | some d =>
+      if d.version ≠ v then some s!"mismatch:{i}:version"
+      else if d.tracing then some s!"mismatch:{i}:tracing"
+      else if d.rest ≠ [] then some s!"mismatch:{i}:rest"
+      else if canonReq d.req ≠ canonReq want then some s!"mismatch:{i}:request"
+      else checkFrames v (i + 1) ws fs
+
+def hsSpec (l : HsLine) (frames : List Bytes) : String :=
+  let want := specReqs l.cfg l.au l.answers
+  if frames.length ≠ want.length then s!"mismatch:count:{frames.length}/{want.length}" else
+  match checkFrames l.cfg.v 0 want frames with
+  | some e => e
+  | none =>
+    s!"ok n={want.length} status={specStatus (specFinal l.cfg l.au .options l.answers)} success={successStr (specSuccess l.cfg l.au .options l.answers)}"
+
+def hsModel (l : HsLine) (order : List Bytes) (streams : List Int) : String :=
+  let cfg := { l.cfg with mapOrder := orderBy order }
+  let fin := final cfg l.au (Handshake.init cfg) l.answers
+  match encodeAll cfg.v now0 streams (modelReqs cfg l.au l.answers) with
+  | none => s!"noframes n={(modelReqs cfg l.au l.answers).length}"
+  | some fs =>
+    ",".intercalate (fs.map toHex) ++ s!" status={modelStatus fin.phase} success={successStr fin.successArgs}"
+
+end Hs
+
 def step (_ : Unit) (ws : List String) : Unit × String :=
   ((), match ws with
   | "enc" :: r =>
@@ -258,6 +428,23 @@ def step (_ : Unit) (ws : List String) : Unit × String :=
         else if canonReq d.req ≠ canonReq want then "mismatch:request"
         else "ok"
     | _, _ => "bad-op"
+  | "hs" :: r =>
+    match pHsLine r with
+    | some (l, r) =>
+      match pCounted pHex r with
+      | some (frames, []) => hsSpec l frames
+      | _ => "bad-op"
+    | none => "bad-op"
+  | "hsm" :: r =>
+    match pHsLine r with
+    | some (l, r) =>
+      match pCounted pHex r with
+      | some (order, r) =>
+        match pCounted pInt r with
+        | some (streams, []) => hsModel l order streams
+        | _ => "bad-op"
+      | none => "bad-op"
+    | none => "bad-op"
   | "sess" :: _ => "ok"      -- session tier bookkeeping line: the harness reports setup / frame-count problems here
   | _ => "bad-op")
 
